@@ -8,7 +8,11 @@ MODE = sys.argv[1] if len(sys.argv) > 1 else 'word'
 def one(w):
     cl = [c for c in P.tab_mn if c.check(w)]
     names = ','.join(c.__name__ for c in cl)
-    if len(cl) != 1: return names + '|-'
+    if len(cl) != 1:
+        # a word that no class (or several) claims must not decode
+        try: i = P.ppc_mn(w); return names + '|-|DECODES as %s' % type(i).__name__
+        except ValueError: return names + '|-'
+        except Exception as e: return names + '|-|CRASH %s' % type(e).__name__
     if MODE == 'word':
         try:
             i = P.ppc_mn(w)
